@@ -351,6 +351,35 @@ pub fn cases_c16(rng: &mut Rng, count: usize, tier: &str) -> Vec<Case> {
             o.max_terms = if tier == "thorough" { 90 } else { 50 };
             o.max_records = 2;
         }
+        if !deep && rng.chance(1, 4) {
+            // the same facts rendered three times as JAX text files: stanza order, line order inside a
+            // stanza and row order differ, the loader is the same
+            o.flags = true;
+            o.long_names = false;
+            o.roots_eighths = 8;
+            let mut f = gen::gen_facts(rng, o);
+            f.genes.retain(|r| !r.terms.is_empty());
+            f.omim.retain(|r| !r.terms.is_empty());
+            f.orpha.retain(|r| !r.terms.is_empty());
+            let transitive = rng.chance(1, 2);
+            let mut worlds = vec![];
+            let mut obs = vec![];
+            for _ in 0..3 {
+                let genes = if transitive { crate::jax::render_phenotype_to_genes(rng, &f) } else { crate::jax::render_genes_to_phenotype(rng, &f) };
+                let w = World::Jax { transitive, obo: crate::jax::render_obo(rng, &f), genes, hpoa: crate::jax::render_hpoa(rng, &f) };
+                let bl = w.build();
+                obs.push(match &bl {
+                    None => V::C("Panic", vec![]),
+                    Some(world::Built { result: Ok(o), .. }) => dump::dump_res(o),
+                    Some(world::Built { result: Err(e), .. }) => dump::err_v(e),
+                });
+                worlds.push(w.to_v());
+            }
+            let mut tags = tags_for(&f);
+            tags.push("jax");
+            out.push(Case { input: V::T(vec![V::L(worlds), dump::ln_table(f.n_records())]), obs: V::L(obs), tags });
+            continue;
+        }
         let mut f = gen::gen_facts(rng, o);
         // one name per id: a record keeps the name it was first created with, so every fact of a
         // record carries the same name (gen_facts guarantees this)
